@@ -123,21 +123,46 @@ fn anon_ok(s: &S) -> bool {
 	for &c in d { v = v * 10 + (c - 48) as u64; if v > i32::MAX as u64 { return false; } }
 	v >= 1
 }
+/// what the nester looks at in a jar: class names with their methods (name, descriptor)
+pub type JarView = Vec<(S, Vec<(S, S)>)>;
+pub fn jar_view(jar: &[JSpec]) -> JarView { jar.iter().map(|c| (c.name.clone(), c.methods.iter().map(|m| (m.name.clone(), m.desc.clone())).collect())).collect() }
+
+/// the rule of the kind: anonymous = positive numeric inner name, inner = enclosing method absent,
+/// local = enclosing method present (in the class of that name in the jar)
+pub fn kind_ok(jar: &JarView, n: &MNest) -> bool {
+	let has = n.meth.as_ref().map_or(false, |(a, b)| jar.iter().rev().find(|(c, _)| c == &n.encl).map_or(false, |(_, ms)| ms.iter().any(|(x, y)| x == a && y == b)));
+	match n.kind { ANON => anon_ok(&n.inner), INNER => !has, _ => has }
+}
 /// which nests apply: the class is present (in the jar, or created earlier as a missing enclosing
-/// class) and the rule of its kind holds; missing enclosing classes are created
-pub fn ref_nesting(jar: &[JSpec], t: &MTable) -> RefNesting {
-	let mut present: HashSet<S> = jar.iter().map(|c| c.name.clone()).collect();
-	let methods: HashMap<&S, HashSet<(&S, &S)>> = jar.iter().map(|c| (&c.name, c.methods.iter().map(|m| (&m.name, &m.desc)).collect())).collect();
+/// class) and the rule of its kind holds; missing enclosing classes are created.  This is the
+/// documented, table-order dependent filter (theorem C14_filter_spec).
+pub fn ref_nesting(jar: &JarView, t: &MTable) -> RefNesting {
+	let mut present: HashSet<S> = jar.iter().map(|c| c.0.clone()).collect();
 	let (mut applied, mut created, mut created_listed) = (vec![], vec![], false);
 	for n in t {
 		if !present.contains(&n.class) { continue; }
 		if created.contains(&n.class) { created_listed = true; }
 		if !present.contains(&n.encl) { created.push(n.encl.clone()); present.insert(n.encl.clone()); }
-		let has = n.meth.as_ref().map_or(false, |(a, b)| methods.get(&n.encl).map_or(false, |ms| ms.contains(&(a, b))));
-		let ok = match n.kind { ANON => anon_ok(&n.inner), INNER => !has, _ => has };
-		if ok { applied.push(n.clone()); }
+		if kind_ok(jar, n) { applied.push(n.clone()); }
 	}
 	RefNesting { applied, created, created_listed }
+}
+/// the order-INDEPENDENT premise of the property: every listed class is in the jar and satisfies the
+/// rule of its kind (theorem C14_jar_mapping_agree_any_order)
+pub fn all_in_jar(jar: &JarView, t: &MTable) -> bool {
+	let names: HashSet<&S> = jar.iter().map(|c| &c.0).collect();
+	t.iter().all(|n| names.contains(&n.class) && kind_ok(jar, n))
+}
+/// the entries that would apply if a created enclosing class counted as present whatever the order
+/// (least fixpoint); differs from `ref_nesting().applied` exactly in the order-dependent situations
+pub fn applied_fixpoint(jar: &JarView, t: &MTable) -> Vec<S> {
+	let mut present: HashSet<S> = jar.iter().map(|c| c.0.clone()).collect();
+	loop {
+		let before = present.len();
+		for n in t { if present.contains(&n.class) { present.insert(n.encl.clone()); } }
+		if present.len() == before { break; }
+	}
+	t.iter().filter(|n| present.contains(&n.class) && kind_ok(jar, n)).map(|n| n.class.clone()).collect()
 }
 pub fn strip_prefix_ref(s: &S) -> S { let k = s.iter().take_while(|&&c| digit(c)).count(); if k == s.len() { s.clone() } else { s[k..].to_vec() } }
 
@@ -157,17 +182,15 @@ pub enum OutEntry { Class(Vec<u8>), Other(Vec<u8>), Dir }
 pub type JarAnswer = Result<Option<Vec<(String, OutEntry)>>, String>;
 pub fn entry_name(c: &S) -> String { format!("{}.class", show(c)) }
 
-pub fn impl_nest_jar(remap: bool, jar: &[JSpec], extra: &[(String, Option<Vec<u8>>)], t: &MTable) -> JarAnswer {
+pub enum InEntry { Class(Vec<u8>), Other(Vec<u8>), Dir }
+/// nest_jar on an in-memory jar of raw entries
+pub fn impl_nest_jar_raw(remap: bool, input: Vec<(String, InEntry)>, nests: dukenest::nest::Nests<NA>) -> JarAnswer {
 	let mut entries = indexmap::IndexMap::new();
-	for (name, data) in extra {
-		let content = match data { Some(d) => JarEntryEnum::Other(d.clone()), None => JarEntryEnum::Dir };
-		entries.insert(name.clone(), ParsedJarEntry { attr: BasicFileAttributes::default(), content });
-	}
-	for c in jar {
-		entries.insert(entry_name(&c.name), ParsedJarEntry { attr: BasicFileAttributes::default(), content: JarEntryEnum::Class(ClassRepr::Vec { data: build(c) }) });
+	for (name, e) in input {
+		let content = match e { InEntry::Other(d) => JarEntryEnum::Other(d), InEntry::Dir => JarEntryEnum::Dir, InEntry::Class(data) => JarEntryEnum::Class(ClassRepr::Vec { data }) };
+		entries.insert(name, ParsedJarEntry { attr: BasicFileAttributes::default(), content });
 	}
 	let src: ParsedJar<ClassRepr, Vec<u8>> = ParsedJar { entries };
-	let nests = to_nests::<NA>(t);
 	guarded(AssertUnwindSafe(move || {
 		let out = dukenest::nest_jar(remap, &src, nests).ok()?;
 		let mut v = vec![];
@@ -180,6 +203,12 @@ pub fn impl_nest_jar(remap: bool, jar: &[JSpec], extra: &[(String, Option<Vec<u8
 		}
 		Some(v)
 	}))
+}
+pub fn impl_nest_jar(remap: bool, jar: &[JSpec], extra: &[(String, Option<Vec<u8>>)], nests: dukenest::nest::Nests<NA>) -> JarAnswer {
+	let mut input = vec![];
+	for (name, data) in extra { input.push((name.clone(), match data { Some(d) => InEntry::Other(d.clone()), None => InEntry::Dir })); }
+	for c in jar { input.push((entry_name(&c.name), InEntry::Class(build(c)))); }
+	impl_nest_jar_raw(remap, input, nests)
 }
 
 // ---------- Gallina ----------
